@@ -1,6 +1,8 @@
 """C10 - integral, average and evaluation of piecewise functions are exact."""
 from fractions import Fraction as Fr
 
+import math
+
 import numpy as np
 from hypothesis import strategies as st
 
@@ -57,9 +59,17 @@ def pw_arrays(draw, kind, q, k0, n, max_pieces, pool=None, near_x=None):
     if style == "near":
         xs = [near_x[0]]
         for v in near_x[1:-1]:
-            d = draw(st.sampled_from([0.0, EPS, -EPS, 0.0, 3 * EPS]))
-            if xs[-1] < v + d < near_x[-1]:
-                xs.append(v + d)
+            d = draw(st.sampled_from([0.0, EPS, -EPS, 0.0, 3 * EPS, "ulp+", "ulp-", "2ulp+"]))
+            if d == "ulp+":         # the very next double: a piece one ulp wide
+                w = math.nextafter(v, math.inf)
+            elif d == "ulp-":
+                w = math.nextafter(v, -math.inf)
+            elif d == "2ulp+":
+                w = math.nextafter(math.nextafter(v, math.inf), math.inf)
+            else:
+                w = v + d
+            if xs[-1] < w < near_x[-1]:
+                xs.append(w)
         xs.append(near_x[-1])
         val = st.integers(-40, 40).map(lambda v: v / 8.0)
         m = len(xs) - 1
@@ -298,6 +308,20 @@ def run_case(case, ctx):
             ctx.check(close(gm, ref, 1.0 / min(1.0, sum(b - a for a, b in sub))),
                       "avrg_interval_list",
                       lambda: "avrg(%r)=%r exact %r" % (sub, float(gm), float(ref)))
+            # intervals of a list may touch, overlap or contain one another: still the
+            # summed integrals over the summed lengths (each interval counts in full)
+            lists = [ivs, [(ch[0], ch[-1]), (ch[1], ch[-1])], [(ch[0], ch[-1]), (ch[0], ch[1])]]
+            if len(ch) > 3:
+                lists += [[(ch[0], ch[2]), (ch[1], ch[3])], [(ch[0], ch[3]), (ch[1], ch[2])],
+                          [(ch[1], ch[3]), (ch[0], ch[2])]]
+            for sub in lists:
+                gm = ctx.call("avrg_interval_list", real.avrg, list(sub))
+                ref = sum(model.integral(Fr(a), Fr(b)) for a, b in sub) / \
+                    sum(Fr(b) - Fr(a) for a, b in sub)
+                ctx.check(close(gm, ref, 4.0 / min(1.0, min(b - a for a, b in sub))),
+                          "avrg_interval_list_overlapping",
+                          lambda: "avrg(%r)=%r, summed integrals / summed lengths = %r"
+                          % (sub, float(gm), float(ref)))
     # evaluation
     times = list(case["times"])
     exp = [model.value(Fr(t)) for t in times]
